@@ -490,8 +490,9 @@ struct TemplateCore {
                                             tag.TrueTagsStartID = SizeT8(id);
                                         }
 
-                                        if (!areInLineIfSubTagsValid(tag)) {
-                                            // A sub tag outside of true="..." and false="...".
+                                        if ((id > SizeT32{0xFF}) || !areInLineIfSubTagsValid(tag)) {
+                                            // More sub tags than the 8-bit start id can count, or
+                                            // a sub tag outside of true="..." and false="...".
                                             storage->Drop(SizeT{1});
                                         }
                                     }
